@@ -629,17 +629,13 @@ def cmpUse (as : List Attribute) : Out Unit := do
   | none => pure ()
 
 /-- policy evaluation as far as it reads attribute structure: `Condition::AsPathLength` then the
-    `as_prepend` action (`use_left_most`, repeat 1); result = the new AS_PATH value -/
+    `as_prepend` action (fixed AS 65000, repeat 1); result = the new AS_PATH value -/
 def polUse (as : List Attribute) : Out Bytes := do
   match findCode 2 as with
   | none => pure ([2, 1] ++ beN 4 65000)
   | some a =>
       let _ ← asPathLength a
-      let b ← unwrapO a.binary                          -- `AsPathIter::new`
-      let left := match b with
-        | _ :: l :: rest => if l ≠ 0 ∧ l * 4 ≤ rest.length then some (ofBe (rest.take 4)) else none
-        | _ => none
-      let a' ← asPathPrepend a (left.getD 65000)
+      let a' ← asPathPrepend a 65000
       unwrapO a'.binary
 
 /-! ### two-octet-AS session helpers used by `do_encode` -/
